@@ -78,8 +78,8 @@ CHECKS = {
  "C05": dict(
   level="exploration", design="§5 C05", engine="chainkit",
   technique="differential monitoring of real block execution: every generated block is executed by the proposer path and by cold / warm-cache / fast-sync / reopened replicas at different GOMAXPROCS, and all result components are compared byte for byte; variant blocks (reordered, appended, upgraded) must get the same verdict everywhere; race lane C05R executes the validator path while goroutines hammer mempool admission and getters under the race detector",
-  text="Chains of 3-8 generated blocks over the real application (transfers, token transfers, EVM and WASM creations and calls, failing calls, multi-sign and upgrade transactions, A->U, U->U, U->A, evidence record). For every block: PreRunBlock must not panic, every replica's CheckBlock verdict must agree and accept a correct proposer's block, and state hash, receipt hash, gas used, receipts, logs, bloom, confidential outputs, key images, special txs, candidates and post-commit roots must be identical across executions. Held on the chains explored, modulo one known finding.",
-  note="four genuine defects fixed (three pool-recheck gaps that made a correct proposer's block fail or be rejected; CommitBlock publishing state outside its readers' locks). Known finding: process-wide WASM module cache changes block results. Flat key-value mode and non-empty candidate lists are not covered here."),
+  text="Chains of 3-8 generated blocks over the real application (transfers, token transfers, EVM and WASM creations and calls, failing calls, multi-sign and upgrade transactions, A->U, U->U, U->A, evidence record). For every block: PreRunBlock must not panic, every replica's CheckBlock verdict must agree and accept a correct proposer's block, and state hash, receipt hash, gas used, receipts, logs, bloom, confidential outputs, key images, special txs, candidates and post-commit roots must be identical across executions. Held on the chains explored.",
+  note="five genuine defects fixed (three pool-recheck gaps that made a correct proposer's block fail or be rejected; CommitBlock publishing state outside its readers' locks; process-wide WASM module cache keyed by address only changed block results). Flat key-value mode and non-empty candidate lists are not covered here."),
  "C06": dict(
   level="exploration", design="§5 C06", engine="chainkit",
   technique="conservation-ledger monitoring of real chains (sum over every leaf of the committed account trie + generator-side hidden-pool ledger, per-account reference ledger from receipts) and a spender-side tampering adversary (62 classes) at mempool admission and block validation",
